@@ -791,6 +791,8 @@ func main() {
 	}
 	// the same sweep over captures whose text is made of multi-byte characters (unicode.go)
 	uniSweep(*tmp, func(r result) { enc.Encode(r) })
+	// a reusable state created at every point of an engine's history of Loads (history.go)
+	historySweep(*tmp, func(r result) { enc.Encode(r) })
 	pwg.Wait()
 	enc.Encode(map[string]interface{}{"k": "meta", "rules": len(rules), "contexts": len(ctxs), "shapes": len(shapes)})
 }
